@@ -23,6 +23,10 @@ def ws_cmd(a):
     k = a["a"]
     if k == "conn":
         return "conn %d" % a["c"]
+    if k == "accept":
+        return "accept %d" % a["c"]
+    if k == "resp":
+        return "resp %d %s %d" % (a["c"], a["k"], b(a["hc"]))
     if k == "http":
         return "http %d %s %d" % (a["c"], a["k"], b(a["hc"]))
     if k == "ws":
@@ -52,12 +56,15 @@ def sig_ws(tagname):
 def run(v, tier, rng):
     thorough = tier == "thorough"
     exe = build_driver("drv_ws", DRV)
-    r = tlc("wire/Ws.tla", "Ws_mc.cfg", workers=8, timeout=1500)
-    tlc_require_ok(r, "Ws")
-    v.add_tlc("wire/Ws.tla:mc", r)
+    for mc in ("Ws_mc.cfg", "WsC_mc.cfg"):
+        r = tlc("wire/Ws.tla", mc, workers=8, timeout=1500)
+        tlc_require_ok(r, "Ws " + mc)
+        v.add_tlc("wire/Ws.tla:" + mc, r)
     total = 0
     plans = [("Ws_sim.cfg", "pull", 1, [1, 3, 0], 300), ("Ws1000_sim.cfg", "pull", 1000, [1, 0], 200),
-             ("WsOut_sim.cfg", "push", 1, [1, 0], 100), ("WsOut1000_sim.cfg", "push", 1000, [3, 0], 100)]
+             ("WsOut_sim.cfg", "push", 1, [1, 0], 100), ("WsOut1000_sim.cfg", "push", 1000, [3, 0], 100),
+             # client role: the socket dials, the driver is the WebSocket server
+             ("WsC_sim.cfg", "pulld", 1, [1, 0], 200), ("WsC1000_sim.cfg", "pulld", 1000, [3], 120), ("WsCOut_sim.cfg", "pushd", 1, [1, 0], 100)]
     for cfg, kind, scale, clamps, nsim in plans:
         g = tlc_edges("wire/Ws.tla", cfg, timeout=1500, simulate=nsim * (4 if thorough else 1), depth=14, seed=v.seed, cache=False)
         v.cov["transitions"] += len(g["edges"])
@@ -75,7 +82,7 @@ def run(v, tier, rng):
     v.cov["distinct_nontrivial"] = total
     v.cov["rule"] = ("behaviours of Ws.tla (depth 14: 14 kinds of upgrade request, data frames fin/cont x sizes 0,1,3,5 units, 40 malformed or "
                      "control frame shapes, sends of 0,1,3,5 units with fragment size 2 units) x I/O clamps x scales; distinct = behaviour x clamp runs")
-    v.assumptions += ["server role only (the listener side of the ws transport): the client role (dialer: masking of emitted frames, validation "
-                      "of the 101 response) is not driven", "the HTTP client API, chunked transfer decoding and static file handlers of the "
+    v.assumptions += ["both roles of the ws transport: listener (driver = client) and dialer (driver = server: the emitted upgrade request, "
+                      "validation of the 101 response, masking of every emitted frame, redial after a refused upgrade)", "the HTTP client API, chunked transfer decoding and static file handlers of the "
                       "HTTP server are outside the specification (only what the ws upgrade path reaches)",
                       "real time: bounded waits; segmentation through the I/O clamp hook in nni_aio_iov_clamp_len"]
